@@ -5,11 +5,13 @@ import (
 	"fmt"
 	"os"
 	"os/exec"
+	"path/filepath"
 	"strings"
 	"time"
 
 	jd "github.com/josephburnett/jd/v2"
 
+	"verif/mc/cli"
 	"verif/mc/engine"
 	"verif/mc/impl"
 	"verif/mc/ref"
@@ -93,6 +95,63 @@ func c15MultiKey() *TextSet {
 		}
 		return NewTextSet(vs)
 	})
+}
+
+// runRacer runs the -race build of cmd/racer (goroutines calling the read-only operations on unrelated and on
+// shared values) and reports data races and outputs that differ from the sequential run.
+func runRacer(which string) engine.Result {
+	res := engine.Result{Traces: 1, Nontrivial: true, Bucket: "concurrency/" + which}
+	bin := filepath.Join(cli.BinDir(), "jdmc-race")
+	if _, err := os.Stat(bin); err != nil {
+		res.Bucket = "concurrency/skipped: no -race build"
+		res.Nontrivial = false
+		return res
+	}
+	cmd := exec.Command(bin, which)
+	cmd.Env = append(os.Environ(), "GORACE=halt_on_error=0 exitcode=66")
+	var so, se strings.Builder
+	cmd.Stdout, cmd.Stderr = &so, &se
+	err := cmd.Run()
+	res.Transitions = 1
+	switch {
+	case strings.Contains(se.String(), "DATA RACE"):
+		// name the first racing function, without addresses or goroutine numbers
+		where := ""
+		for _, l := range strings.Split(se.String(), "\n") {
+			l = strings.TrimSpace(l)
+			if strings.HasPrefix(l, "github.com/josephburnett/jd") {
+				where = l
+				if i := strings.Index(where, "("); i > 0 {
+					where = where[:i]
+				}
+				break
+			}
+		}
+		res.Violation = "the race detector reports a data race between concurrent calls of read-only operations (first frame in jd: " + where + ")"
+		res.Sig = "data race"
+	case err != nil:
+		out := so.String()
+		if len(out) > 600 {
+			out = out[:600] + "..."
+		}
+		res.Violation = "concurrent calls give outputs that differ from the sequential ones: " + out
+		res.Sig = "concurrent output differs"
+	}
+	return res
+}
+
+func setHostileEnv(on bool) {
+	for _, kv := range cli.HostileEnv {
+		k := kv[:strings.Index(kv, "=")]
+		if k == "PATH" || k == "HOME" {
+			continue
+		}
+		if on {
+			os.Setenv(k, kv[len(k)+1:])
+		} else {
+			os.Unsetenv(k)
+		}
+	}
 }
 
 type c15ND struct{ two, three []string }
@@ -209,6 +268,8 @@ func enumC15(tier string, e *engine.Emitter) {
 			}
 		}
 	}
+	// free-running pass with the race detector: the read-only operations from several goroutines at once
+	e.Emit(engine.Case{Kind: "c15race", Leg: "concurrency/race-detector", A: "v2"})
 	// YAML mappings whose keys are not strings, or are strings that print like them: whatever the reader does with
 	// them (reject, convert), it must do the same on every call
 	yl := []string{"1: a\n", "\"1\": b\n", "1.0: c\n", "true: d\n", "\"true\": e\n", "~: f\n", "\"\": g\n", "a: h\n", "0x1: i\n", "k:\n  1: x\n  \"1\": y\n", "? [1]\n: j\n", "01: k\n"}
@@ -403,6 +464,9 @@ func runC15(c *engine.Case) engine.Result {
 	if strings.HasPrefix(c.Kind, "c15iso:") {
 		return runC15Iso(c, kind)
 	}
+	if c.Kind == "c15race" {
+		return runRacer(c.A)
+	}
 	if c.Kind == "c15yaml" {
 		res.Bucket = "determinism/yaml/rejected"
 		first := ""
@@ -437,7 +501,11 @@ func runC15(c *engine.Case) engine.Result {
 		if det {
 			res.Bucket = "determinism/" + kind
 			var first []string
+			defer setHostileEnv(false)
 			for rep := 0; rep < 40; rep++ {
+				// every other repetition runs with NO_COLOR, TERM=dumb and a Turkish locale in the process
+				// environment: the outputs are a function of the inputs, not of the environment
+				setHostileEnv(rep%2 == 1)
 				w, err := c15Build(kind, c.A, c.B)
 				if err != nil {
 					res.Bucket = "determinism/unreadable"
